@@ -1,5 +1,4 @@
-(* WORK IN PROGRESS (not yet used by Props): towards "the pointer-level linked
-   list refines the list the model uses": chains of cells, the representation
+(* C02: the pointer-level linked list: chains of cells, the representation
    predicate, linking a cell before the anchor, unlinking a cell. *)
 From Boltons Require Import Lib.Prelude Lib.C02_Syntax Spec.C02_Spec Model.C02_Model Proofs.C02_Lists.
 From Boltons Require Import Model.C02_PtrModel.
